@@ -170,6 +170,26 @@ func main() {
 		}
 		check(fmt.Sprintf("probe%d", i), pr[0], vs)
 	}
+	// every comparison operator x operand kinds at a loop bottom (direct fused jump) vs the unfused spelling
+	{
+		ops := []string{"<", "<=", ">", ">=", "==", "!="}
+		operands := []string{"1", "2.5", `"3"`, `"abc"`, `"10x"`, "$1", "$2", "$3", "u", `""`, "x10"}
+		k := 0
+		for _, op := range ops {
+			for _, a := range operands {
+				for _, b := range operands {
+					k++
+					if o.Tier != "thorough" && k%3 != int(o.Seed%3) {
+						continue
+					}
+					mk := func(cond string) string {
+						return fmt.Sprintf(`{ x10 = "x10"; n = 0; do { n++; if (n >= 3) break } while (%s); m = 0; for (i = 0; %s; i++) { m++; if (m >= 2) break }; print n, m }`, cond, cond)
+					}
+					check("loop-bottom-cmp", mk(a+" "+op+" "+b), map[string]string{"paren-conds": mk("(" + a + " " + op + " " + b + ")")})
+				}
+			}
+		}
+	}
 	// the one known divergence between a chain and its regrouping (conversion happens after ALL operands are evaluated)
 	check("concat-chain-convfmt-side-effect",
 		`function f() { CONVFMT = "%.2g"; return "" } BEGIN { a = 0.123456789; s = a "x" f(); print s }`,
